@@ -973,7 +973,7 @@ func (ex *Exec) builtin(st *State, name string, args []Value, call ssa.CallInstr
 		return args[0]
 	case "recover":
 		// effective only when called directly by a deferred function run because of a panic
-		if g := st.g(); g.Paniced && len(g.Frames) == g.UnwindLevel+1 && g.Frames[len(g.Frames)-1].IsDefer {
+		if g := st.g(); g.Paniced && !g.Goexit && len(g.Frames) == g.UnwindLevel+1 && g.Frames[len(g.Frames)-1].IsDefer {
 			g.Paniced = false
 			g.Recovered = true
 			v := g.Panic
